@@ -266,6 +266,8 @@ structure KRes where
   closedWin : Bool := false
   /-- model-side event: a handshake completed on a TCB that had already retransmitted its SYN / SYN-ACK -/
   hsRetx : Bool := false
+  /-- model-side: classes of the sockets left in the tables at the end of the case -/
+  leftover : List String := []
   line : Nat := 0
   want : String := ""
   got : String := ""
@@ -298,14 +300,23 @@ def replay (cfg : Cfg) (c : Case) : KRes := Id.run do
         return { ok := false, line := r.line + 1 + i, want := (mine[i]?).getD "<nothing>", got := (r.obs[i]?).getD "<nothing>" }
   if c.panic.isSome then
     return { ok := false, line := (c.ops.back?.map (·.line)).getD 0, want := "<no panic>", got := s!"panic {c.panic.getD ""}" }
-  return { ok := true, closedWin := closedWin, hsRetx := hsRetx }
+  let leftover := s.kernels.flatMap fun k => k.sockets.filterMap fun e =>
+    match e.2.tcb with
+    | none => none
+    | some t =>
+      if !e.2.fdClosed && !k.acceptLog.contains e.1 && t.state == .closed then some "orphan"
+      else if e.2.fdClosed && (!t.recvBuf.isEmpty || (t.sndWnd == 0 && !t.sendBuf.isEmpty)) then some "blocked"
+      else if e.2.fdClosed then some "stranded"
+      else none
+  return { ok := true, closedWin := closedWin, hsRetx := hsRetx, leftover := leftover }
 
 /-- Every non-empty combination of the repair flags (the implementation may carry any subset of
     the repairs; DESIGN 1.3). -/
 def fixedVariants (cfg : Cfg) : List Cfg :=
-  (List.range 16).tail.map fun m =>
+  (List.range 32).tail.map fun m =>
     { cfg with fixReapOrphan := m % 2 == 1, fixReack := (m / 2) % 2 == 1,
-               fixWinUpdate := (m / 4) % 2 == 1, fixHsReset := (m / 8) % 2 == 1 }
+               fixWinUpdate := (m / 4) % 2 == 1, fixHsReset := (m / 8) % 2 == 1,
+               fixRstAfterClose := (m / 16) % 2 == 1 }
 
 /-! ### O: oracles on the implementation's observations -/
 
@@ -395,7 +406,7 @@ structure ORes where
   fail : Option String := none
   pattern : String := "none"
 
-def oracle (prop : String) (c : Case) (h : Spec.History) (closedWin hsRetx : Bool) : ORes :=
+def oracle (prop : String) (c : Case) (h : Spec.History) (closedWin hsRetx : Bool) (leftover : List String) : ORes :=
   if let some p := c.panic then { fail := some s!"implementation panicked: {p}" } else
   match prop with
   | "C06" =>
@@ -416,8 +427,10 @@ def oracle (prop : String) (c : Case) (h : Spec.History) (closedWin hsRetx : Boo
     | none =>
       match Spec.c13Check c.cfg h with
       | some m =>
-        let pat := if patOrphanChild h then "F-C13-1" else if patLostRst h then "F-C13-2"
-                   else if closedWin then "F-C13-3" else "none"
+        let pat := if leftover.contains "orphan" && patOrphanChild h then "F-C13-1"
+                   else if leftover.contains "blocked" && closedWin then "F-C13-3"
+                   else if leftover.contains "stranded" && patLostRst h then "F-C13-2"
+                   else "none"
         { fail := some m, pattern := pat }
       | none => {}
   | "C16" =>
@@ -491,14 +504,14 @@ def covTags (c : Case) (h : Spec.History) : List String := Id.run do
 
 def processCase (prop : String) (c : Case) : IO (Bool × Bool) := do
   let k0 := replay c.cfg c
-  let (kOk, variant, kr) :=
-    if k0.ok then (true, "faithful", k0)
+  let (kOk, variant, kr, kgood) :=
+    if k0.ok then (true, "faithful", k0, k0)
     else
-      match (fixedVariants c.cfg).find? fun cfg => (replay cfg c).ok with
-      | some _ => (true, "fixed", k0)
-      | none => (false, "-", k0)
+      match (fixedVariants c.cfg).findSome? fun cfg => let r := replay cfg c; if r.ok then some r else none with
+      | some r => (true, "fixed", k0, r)
+      | none => (false, "-", k0, k0)
   let h := history c
-  let o := oracle prop c h (kOk && k0.closedWin) (kOk && k0.hsRetx)
+  let o := oracle prop c h (kOk && kgood.closedWin) (kOk && kgood.hsRetx) (if kOk then kgood.leftover else [])
   let cov := covTags c h
   let detail :=
     (if kOk then "" else s!"K line {kr.line}: model={kr.want} | impl={kr.got} ") ++
